@@ -7,24 +7,32 @@ import re
 from pathlib import Path
 
 LEAN = Path(__file__).resolve().parent.parent / "lean"
+T = "TypesK"          # per-kernel type-level theorems (Numba typing, loops, flags, layouts): Props/TypesK<Kernel>.lean
+SMOOTH_FIXED = [T + "Ws2dgu", T + "Ws2dpgu"]
+SMOOTH_V = [T + "Ws2doptv", T + "Ws2doptvp", T + "Ws2doptvplc", T + "Ws2doptvplcTyx"]
+SMOOTH_GCV = [T + "Ws2dwcv", T + "Ws2dwcvp"]
+SPI = [T + "GammastdGrp", T + "GammastdYxt"]
+MK = [T + "MannKendallTrendGuU", T + "MannKendallTrendGuNdU", T + "MannKendallTrendYxt"]
+ALL_TYPES = (["TypesGlobal"] + SMOOTH_FIXED + SMOOTH_V + SMOOTH_GCV + SPI + MK
+             + [T + "Tinterpolate", T + "Lroo", T + "MeanGrp", T + "RollingSum", T + "Autocorr", T + "AutocorrTyx", T + "DoMean", T + "Ws2dwcvpU"])
 MODULES = {
     "C01": ["C01", "C01gen"],
-    "C02": ["C02", "GenNumGu", "GenNumPgu"],
-    "C03": ["C03", "GenNumGu", "GenNumPgu"],
-    "C04": ["C04", "GenNumOptv", "GenNumOptvp", "GenNumOptvpCore", "GenNumOptvplc"],
-    "C05": ["C05", "GenNumWcv", "GenNumWcvp"],
-    "C06": ["C06core", "C06"],
-    "C07": ["C07", "GenNumBrent", "GenNumGammafit", "GenNumGammastd"],
-    "C08": ["C08", "GenNumGammastd", "GenNumGammastdYxt", "SafeBrentq", "SafeGammafit", "SafeGammastd"],
-    "C09": ["C09", "GenNumGammastdGrp"],
-    "C10": ["C10", "GenKMk", "GenNumMkScore", "GenNumMkVar", "GenNumMkZ", "GenNumMkP", "GenNumMkSens", "GenNumMkTrend"],
-    "C11": ["C11"], "C12": ["C12"], "C13": ["C13", "Types"],
+    "C02": ["C02", "GenNumGu", "GenNumPgu"] + SMOOTH_FIXED + SMOOTH_V[:3] + SMOOTH_GCV,
+    "C03": ["C03", "GenNumGu", "GenNumPgu"] + SMOOTH_FIXED,
+    "C04": ["C04", "GenNumOptv", "GenNumOptvp", "GenNumOptvpCore", "GenNumOptvplc"] + SMOOTH_V,
+    "C05": ["C05", "GenNumWcv", "GenNumWcvp"] + SMOOTH_GCV,
+    "C06": ["C06core", "C06"] + SMOOTH_FIXED + SMOOTH_V[:3] + SMOOTH_GCV,
+    "C07": ["C07", "GenNumBrent", "GenNumGammafit", "GenNumGammastd"] + SPI,
+    "C08": ["C08", "GenNumGammastd", "GenNumGammastdYxt", "SafeBrentq", "SafeGammafit", "SafeGammastd"] + SPI,
+    "C09": ["C09", "GenNumGammastdGrp", T + "GammastdGrp"],
+    "C10": ["C10", "GenKMk", "GenNumMkScore", "GenNumMkVar", "GenNumMkZ", "GenNumMkP", "GenNumMkSens", "GenNumMkTrend"] + MK,
+    "C11": ["C11"], "C12": ["C12", T + "Ws2doptvplcTyx"], "C13": ["C13"] + ALL_TYPES,
     "C14": ["C14", "SafeRollingSum", "SafeLroo", "SafeMeanGrp", "SafeDoMean", "SafeAutocorrSums", "SafeMkScoreCounts",
             "SafeWs2d", "SafeTinterpolate", "SafeWs2doptv"],
-    "C15": ["C15", "GenKAC", "GenNumACFloat"],
-    "C16": ["C16", "GenKDoMean", "GenKDoMeanB"],
-    "C17": ["C17", "C17round", "C17float", "GenKRS", "GenKRSround", "GenKMeanGrp", "GenKMeanGrpB"],
-    "C18": ["C18", "GenKLroo"], "C19": ["C19"], "C20": ["C20", "GenNumTI"],
+    "C15": ["C15", "GenKAC", "GenNumACFloat", T + "Autocorr", T + "AutocorrTyx"],
+    "C16": ["C16", "GenKDoMean", "GenKDoMeanB", T + "DoMean"],
+    "C17": ["C17", "C17round", "C17float", "GenKRS", "GenKRSround", "GenKMeanGrp", "GenKMeanGrpB", T + "MeanGrp", T + "RollingSum"],
+    "C18": ["C18", "GenKLroo", T + "Lroo"], "C19": ["C19"], "C20": ["C20", "GenNumTI", T + "Tinterpolate"],
 }
 
 
